@@ -79,8 +79,25 @@ fn mode_c07(a: &Args) -> Value {
     let mut file_checks = 0u64;
     while k < a.count {
         let mut sent: Vec<(Report, i64, (i64, i64))> = Vec::new();
+        // position in the publication log of the record each report must produce: other poll outcomes
+        // (chronyd silent or the PHC unreadable, inside and outside the grace period) come in between,
+        // one publication each; "for every tracking report" includes the first one after an outage
+        let mut slot: Vec<usize> = Vec::new();
+        let mut messages = 0usize;
         let base = d.log.lock().unwrap().len();
         while (sent.len() as u64) < batch && k < a.count {
+            if rng.chance(1, 8) {
+                for _ in 0..(1 + rng.below(3)) {
+                    d.send(match rng.below(4) {
+                        0 => Message::ChronyNotRespondingGracePeriod,
+                        1 => Message::PhcErrorBoundRetrievalFailedGracePeriod,
+                        2 => Message::ChronyNotResponding,
+                        _ => Message::PhcErrorBoundRetrievalFailed,
+                    });
+                    messages += 1;
+                    *kinds.entry("outage-message-before-a-report").or_insert(0) += 1;
+                }
+            }
             let (o, dl, dp, kind): (u32, u32, u32, &'static str) = match rng.below(10) {
                 0 => (0, 0, 0, "all-zero"),
                 1 => {
@@ -121,9 +138,11 @@ fn mode_c07(a: &Args) -> Value {
             let as_of = (1000 + (k / 1_000_000_000) as i64, (k % 1_000_000_000) as i64);
             d.send(Message::ClockErrorBoundData((tracking_of(&r), phc, ts(as_of.0, as_of.1))));
             sent.push((r, phc, as_of));
+            slot.push(messages);
+            messages += 1;
             k += a.nshards;
         }
-        for _ in 0..sent.len() {
+        for _ in 0..messages {
             match d.wait_publication() {
                 Wait::Published => {}
                 Wait::NotPublished => {
@@ -137,7 +156,7 @@ fn mode_c07(a: &Args) -> Value {
         }
         let log = d.log.lock().unwrap();
         for (i, (r, phc, as_of)) in sent.iter().enumerate() {
-            let rec = match log.get(base + i) {
+            let rec = match log.get(base + slot[i]) {
                 Some(r) => *r,
                 None => break,
             };
